@@ -114,6 +114,8 @@ class C09(Prop):
     def cases(self, rng: random.Random, tier: str) -> Iterable[dict]:
         # every dedicated family is visited at least twice per run, whatever the seed; the rest is drawn at random
         closure_variant = 0
+        derived_toggle = 0
+        container_first = 1
         twins_split = 2
         forced = [0.04, 0.11, 0.16, 0.16, 0.21, 0.245, 0.28, 0.28, 0.32, 0.35, 0.35, 0.35, 0.35, 0.38, 0.41, 0.45, 0.48, 0.51, 0.53, 0.7, 0.7, 0.7] * 2
         while True:
@@ -131,7 +133,8 @@ class C09(Prop):
                 prog_a = [{"name": "g0", "nodes": [na], "bound": []}]
                 nb2 = dict(nb, dataOuts=perm, name="na", sameFuncAs=None)
                 second = dict(na, dataOuts=perm)
-                if rng.random() < 0.5:
+                derived_toggle += 1
+                if derived_toggle % 2 == 1:      # every other visit (the family is visited several times per run, whatever the seed)
                     # the second node is DERIVED from the first node object (with_outputs: a swap / rotation of the names, or fresh
                     # names) AFTER that object was run against the cache
                     second = dict(na, dataOuts=perm if rng.random() < 0.5 else [o + "_z" for o in outs], deriveOutputsFrom="na")
@@ -172,6 +175,10 @@ class C09(Prop):
                 ])
                 seq = [rng.choice(fam) for _ in range(rng.randint(3, 5))]
                 seq[1] = rng.choice([v for v in fam if v != seq[0]])
+                if container_first:
+                    # whatever the seed: a list and a tuple of the same members, one after the other
+                    container_first -= 1
+                    seq = [{"l": [1, 2, 3]}, {"t": [1, 2, 3]}, {"l": [1, 2, 3]}, {"t": [1, 2, 3]}]
                 nodes = [{"name": "lab", "kind": "fn", "params": [["x", None]], "dataOuts": ["label"], "body": {"b": "tag", "t": "lab"}, "cache": True},
                          {"name": "use", "kind": "fn", "params": [["label", None]], "dataOuts": ["u"], "body": {"b": "tag", "t": "use"}, "cache": rng.random() < 0.5}]
                 yield {"kind": "runs", "program": [{"name": "g0", "nodes": nodes, "bound": []}],
